@@ -36,7 +36,7 @@ def write_case(draw, tier):
         bits = draw(bits_of_len(draw(st.integers(4000, 9000))))
     else:
         bits = draw(bits_st(max_len=600, long=True))
-    return {'bits': bits, 'cls': draw(cls_st), 'route': draw(st.sampled_from(MEM_ROUTES)), 'array_dtype': draw(st.sampled_from(['uint8', 'uint3', 'int12', 'hex4', 'bool', 'float16'])),
+    return {'bits': bits, 'cls': draw(cls_st), 'route': draw(st.sampled_from(MEM_ROUTES + files.FILE_ROUTES + files.FILE_ROUTES)), 'array_dtype': draw(st.sampled_from(['uint8', 'uint3', 'int12', 'hex4', 'bool', 'float16'])),
             'chunk': draw(st.sampled_from([None, None, 8, 64, 4096, 16, 24]))}
 
 
@@ -45,7 +45,22 @@ def run_write(case):
     bits = case['bits']
     n = len(bits)
     exp = ref_bytes(bits)
-    x = build_route(case['cls'], bits, case['route'], 7)
+    src_tmp = None
+    if case['route'] in files.FILE_ROUTES:
+        src_tmp = files.TempDir()
+        src_tmp.__enter__()
+        x = files.build_file_route(case['cls'], bits, case['route'], 7, src_tmp)
+    else:
+        x = build_route(case['cls'], bits, case['route'], 7)
+    try:
+        return _run_write(case, bs, bits, n, exp, x)
+    finally:
+        del x
+        if src_tmp is not None:
+            src_tmp.__exit__(None, None, None)
+
+
+def _run_write(case, bs, bits, n, exp, x):
     require(x.tobytes() == exp, 'tobytes() is not the bits followed by 0-7 zero bits', got=x.tobytes().hex()[:80], expected=exp.hex()[:80], n=n)
     require(bytes(x) == exp, 'bytes(s) differs from tobytes()')
     b = attempt(lambda: x.bytes)
